@@ -5,7 +5,7 @@ from concurrent.futures import ThreadPoolExecutor
 
 V = os.path.dirname(os.path.abspath(__file__))
 
-QUICK_JOB_BUDGET = 50      # seconds of exploration per job in the quick tier
+QUICK_JOB_BUDGET = 30      # seconds of exploration per job in the quick tier
 THOROUGH_JOB_BUDGET = 600
 
 
@@ -21,6 +21,12 @@ def wf(prop, graph, items, buf, mx, kind="func", mode="dpor", oracles=(), events
     jid = kw.pop("id", None) or f"{prop}-{graph}-i{items}-b{buf}-m{mx}-{kind}-{mode}" + (f"-c{''.join(map(str, scen.get('cores', [])))}" if scen.get("cores") else "") + (f"-d{kw.get('delay')}" if mode == "delay" else "")
     job = {"id": jid, "prop": prop, "scen": scen, "mode": mode, "budget": kw.pop("budget", budget(tier)), "oracles": list(oracles), "events_dep": events_dep, "force_all": -1}
     job.update(kw)
+    # scenarios that can also be run natively (real runtime, real bash, un-instrumented scipipe)
+    if graph not in ("tasks", "slots", "gjoin", "gjoin2") and mode == "dpor" and not job.get("crash") and not job.get("race") and scen.get("extra") in (None, "", "recorder", "subdir") \
+            and not job.get("seed_dir") and job.get("omit_edge") is None and not job.get("omit_fromstr") and not job.get("drop_proc") and not job.get("force_order") and not job.get("fault"):
+        # (failing runs are not compared natively: os.Exit does not kill the task's child processes,
+        # which the model's process-group kill does)
+        job["_native"] = True
     return job
 
 
@@ -95,7 +101,7 @@ def plan_c04(tier, seed):
         for g in ("g2", "g3", "g7", "g8"):
             add(g, 2, 1, 2, "cmd")
         add("g12", 3, 1, 2); add("g12", 4, 2, 2)
-    return {"level": "model_checking", "stages": [lambda ctx, prev: jobs, maporder_stage("C04", o, tier)],
+    return {"level": "model_checking", "native": True, "stages": [lambda ctx, prev: jobs, maporder_stage("C04", o, tier)],
             "rule": "every Mazurkiewicz trace (DPOR + sleep sets) of each scenario x configuration; delay bound 2 where the search does not close; MAPORDER pass: each map-range site forced to every other order on the default schedule with <= 1 delay",
             "assumptions": BASE_ASSUMPTIONS + ["multi-in-port processes receive equally long streams; at most one process without out-ports"]}
 
@@ -166,7 +172,7 @@ def plan_c05(tier, seed):
         add("g3", 2, 1, 2, runto=["p"], id="C05-g3-runto-p")
         add("g11", 2, 1, 2, runto=["last"], id="C05-g11-runto-last")
         add("g11", 2, 1, 2, runto=["p"], id="C05-g11-runto-p")
-    return {"level": "model_checking", "stages": [lambda ctx, prev: jobs],
+    return {"level": "model_checking", "native": True, "stages": [lambda ctx, prev: jobs],
             "rule": "every Mazurkiewicz trace of each scenario with start/end/return events mutually dependent (every order not forced by happens-before); at the state where the main thread returns from Run: all started tasks ended, all reference outputs final, no temp dir / FIFO; no deadlock state",
             "assumptions": BASE_ASSUMPTIONS}
 
@@ -255,7 +261,7 @@ def plan_c08(tier, seed):
     add("g3", 2, 1, 2, pre={"in1.txt.p.q": "q.out(in=p.out(in=in1.txt;);)"}, id="C08-g3-i2-m2-preq1")
     if tier != "quick":
         add("g2", 3, 2, 2); add("g3", 3, 1, 3); add("g3", 3, 1, 2); add("g5b", 2, 1, 2); add("g5b", 2, 1, 3); add("g12", 3, 1, 2); add("g12", 4, 2, 3); add("g7", 2, 1, 2)
-    return {"level": "model_checking", "stages": [lambda ctx, prev: jobs],
+    return {"level": "model_checking", "native": True, "stages": [lambda ctx, prev: jobs],
             "rule": "every Mazurkiewicz trace (task completion order is just scheduling); a recorder process reads the observed out-port; emitted sequence == reference arrival order (single upstream) / per-upstream subsequences keep their order (fan-in)",
             "assumptions": BASE_ASSUMPTIONS}
 
@@ -293,12 +299,83 @@ def execute(plan, ctx):
                     nj["id"] = j["id"] + f"-fallback-d{k}"
                     nj["mode"] = "delay"
                     nj["delay"] = k
-                    nj["budget"] = j["budget"] / 2
+                    nj["budget"] = max(8, j["budget"] / 3)
                     fb.append(nj)
         results += rs
         if fb:
             results += run_pool(ctx, fb)
+    if plan.get("native"):
+        n, problems = validate_native(plan, ctx, results)
+        plan["validated"] = n
+        results += problems
     return results
+
+
+def native_key(base, code):
+    """the normalised terminal outcome of a native run (same normalisation as outcomeKey() in the worker)"""
+    ev = []
+    try:
+        for l in open(os.path.join(base, "events.log")):
+            l = l.rstrip("\n")
+            if l.startswith("E S:"):
+                ev.append(l[2:])
+    except FileNotFoundError:
+        pass
+    ev.sort()
+    files = []
+    root = os.path.join(base, "e")
+    for dp, dn, fn in os.walk(root):
+        rel = os.path.relpath(dp, root)
+        if rel == "log" or rel.startswith("log/"):
+            continue
+        for f in fn:
+            p = os.path.normpath(os.path.join(rel, f))
+            if p.endswith(".audit.json") or p.endswith(".audit.json.tmp"):
+                files.append(p)
+            else:
+                try:
+                    files.append(p + "=" + open(os.path.join(dp, f), errors="replace").read())
+                except OSError:
+                    files.append(p + "=?")
+    files.sort()
+    oc = "" if code == 0 else f"exit:{code}"
+    return oc + " | " + " ".join(ev) + " | " + " ".join(files)
+
+
+def validate_native(plan, ctx, results, runs=3):
+    """DESIGN.md 2.4(2): every native outcome (real runtime, real bash, un-instrumented scipipe) of a
+    scenario whose exploration closed must be a member of the explored outcome set."""
+    import subprocess, shutil
+    binary = os.path.join(ctx["scratch"], "vnative")
+    if not os.path.exists(binary):
+        return 0, []
+    validated, problems = 0, []
+    for r in results:
+        j = r["job"]
+        if not j.get("_native") or r.get("error") or (r.get("stats") or {}).get("mode") != "dpor+sleep" or not (r.get("stats") or {}).get("closed") or not r.get("outcomes"):
+            continue
+        if len(r["outcomes"]) >= 40:
+            continue
+        for k in range(runs):
+            base = f"/dev/shm/vn-{os.getpid()}-{abs(hash(j['id'])) % 10**8}-{k}"
+            nj = {"id": j["id"], "scen": j["scen"], "base": base}
+            for key in ("fault", "pre", "pre_audit", "runto", "runtohow"):
+                if key in j:
+                    nj[key] = j[key]
+            jf = os.path.join(ctx["scratch"], "jobs", "native-" + j["id"].replace("/", "_") + ".json")
+            json.dump(nj, open(jf, "w"))
+            try:
+                p = subprocess.run([binary, "-job", jf], stdout=subprocess.PIPE, stderr=subprocess.PIPE, timeout=120)
+                key = native_key(base, p.returncode)
+                if key in r["outcomes"]:
+                    validated += 1
+                else:
+                    problems.append({"job": j, "error": "native run outcome is NOT in the explored outcome set of " + j["id"] + ": " + key[:400] + "  explored e.g.: " + list(r["outcomes"].keys())[0][:400]})
+            except subprocess.TimeoutExpired:
+                problems.append({"job": j, "error": "native run of " + j["id"] + " did not terminate within 120 s"})
+            finally:
+                shutil.rmtree(base, ignore_errors=True)
+    return validated, problems
 
 
 def finish(prop, tier, seed, plan, results, known, classify, wall, build_s, write=True):
@@ -609,7 +686,7 @@ def plan_c02(tier, seed):
                         nj["pre_audit"] = audit
                         nj["mode"] = "dpor"
                         nj["oracles"] = o
-                        nj["budget"] = budget(tier, 25, 300)
+                        nj["budget"] = budget(tier, 12, 300)
                         nj["_fallback_delay"] = 1 if tier == "quick" else 2
                         jobs.append(nj)
             # history: complete run, run again in place
